@@ -902,6 +902,13 @@ void Lexer::lexIntegerOrFloatingConstant(SyntaxToken* tk)
                 lexFloatingOrImaginaryFloatingSuffix(tk, yytext_ - yytext);
                 return;
             }
+            if (yychar_ == 'p' || yychar_ == 'P') {
+                // A hexadecimal floating constant needs no period (6.4.4.2).
+                tk->syntaxK_ = SyntaxKind::FloatingConstantToken;
+                lexBinaryExponentPart();
+                lexFloatingOrImaginaryFloatingSuffix(tk, yytext_ - yytext);
+                return;
+            }
             lexIntegerOrImaginaryIntegerSuffix(tk, yytext_ - yytext);
             return;
         }
